@@ -170,4 +170,402 @@ theorem generateChallenges_eq (bvec : K → List K) (ms : List G → List K → 
   rw [i2] at hj
   rw [i3 j hj, if_pos hj]
 
+/-! ### `CheckIPAProof` -/
+
+theorem forUpOpt_some {σ : Type} (lo hi : Int) (st : σ) (body : Int → σ → Option σ) (f : Int → σ → σ)
+    (h : ∀ i s, body i s = some (f i s)) : Loop.forUpOpt lo hi st body = some (Loop.forUp lo hi st f) := by
+  unfold Loop.forUpOpt Loop.forUp
+  generalize (List.range (hi - lo).toNat) = l
+  induction l generalizing st with
+  | nil => rfl
+  | cons k l ih =>
+    rw [List.foldl_cons, List.foldl_cons]
+    show List.foldl _ (body (lo + (k : Int)) st) l = _
+    rw [h]
+    exact ih _
+
+theorem bit_test (i j : Nat) (hj : j < 8) :
+    (Loop.band (i : Int) (Loop.shl 1 (7 - (j : Int))) > 0) ↔ (i &&& (1 <<< (8 - 1 - j)) > 0) := by
+  unfold Loop.band Loop.shl
+  have e : (7 - (j : Int)).toNat = 8 - 1 - j := by omega
+  simp only [Int.toNat_natCast, e, Int.toNat_one]
+  omega
+
+/-- the result of the translated verifier that corresponds to a result of the model -/
+def ofModel (r : Except VErr Bool × Tr) : Option (Bool × Tr) :=
+  match r.1 with
+  | .ok b => some (b, r.2)
+  | .error _ => none
+
+/-- **`CheckIPAProof`, translated from the source, is the model's `ipaVerify`** (for the 8-round
+configuration the code hard-wires in its bit test `1 << (7 − j)`): same decision, same transcript,
+an error return exactly where the model reports one. -/
+theorem checkIPAProof_eq (cfg : IpaCfg K G) (ms : List G → List K → Option G) (hms : MsOk ms)
+    (hr : cfg.rounds = 8) (tr : Tr) (C : G) (proof : IpaProof K G) (z y : K)
+    (hb : (bVector cfg z).length = cfg.srs.length) :
+    Gen.Loops.checkIPAProof enc (bVector cfg) ms tr cfg.Q cfg.srs (cfg.rounds : Int) C proof.L proof.R proof.a z y
+      = ofModel (ipaVerify enc cfg tr C proof z y) := by
+  unfold Gen.Loops.checkIPAProof ipaVerify ofModel
+  simp only
+  by_cases h1 : proof.L.length = proof.R.length
+  swap
+  · have t1 : (((proof.L.length : Nat) : Int) ≠ ((proof.R.length : Nat) : Int)) := by omega
+    have m1 : proof.L.length ≠ proof.R.length := h1
+    simp only [t1, m1, ne_eq, not_false_eq_true, ↓reduceIte]
+  have h1' : ¬ (((proof.L.length : Nat) : Int) ≠ ((proof.R.length : Nat) : Int)) := by omega
+  have m1 : ¬ (proof.L.length ≠ proof.R.length) := by simpa using h1
+  by_cases h2 : proof.L.length = cfg.rounds
+  swap
+  · have t2 : (((proof.L.length : Nat) : Int) ≠ ((cfg.rounds : Nat) : Int)) := by omega
+    have m2 : proof.L.length ≠ cfg.rounds := h2
+    rw [if_neg h1', if_pos t2, if_neg m1, if_pos m2]
+  have h2' : ¬ (((proof.L.length : Nat) : Int) ≠ ((cfg.rounds : Nat) : Int)) := by omega
+  have m2 : ¬ (proof.L.length ≠ cfg.rounds) := by simpa using h2
+  rw [if_neg h1', if_neg h2', if_neg m1, if_neg m2]
+  -- the transcript prefix
+  rw [show Gen.Loops.labelDomainSep = Label.ipa from rfl, show Gen.Loops.labelC = Label.C from rfl,
+    show Gen.Loops.labelInputPoint = Label.inputPoint from rfl, show Gen.Loops.labelOutputPoint = Label.outputPoint from rfl,
+    show Gen.Loops.labelW = Label.w from rfl]
+  generalize (((tr.domainSep Label.ipa).appendPoint enc C Label.C).appendScalar enc z Label.inputPoint).appendScalar enc y
+    Label.outputPoint = tr1
+  generalize Tr.challenge enc tr1 Label.w = wc
+  obtain ⟨w, tr2⟩ := wc
+  simp only
+  rw [generateChallenges_eq enc _ _ tr2 proof.L proof.R proof.a h1, batchInvert_eq]
+  generalize hgc : genChallenges enc tr2 proof.L proof.R = gc
+  have hxl : gc.1.length = proof.L.length := by rw [← hgc]; exact genChallenges_length enc tr2 _ _ h1
+  obtain ⟨xs, tr3⟩ := gc
+  simp only at hxl ⊢
+  set xInvs := GoIpa.batchInvert xs with hxi
+  have hxil : xInvs.length = xs.length := batchInvert_length xs
+  have h8 : xs.length = 8 := by omega
+  -- the accumulation C + Σ xⱼ Lⱼ + xⱼ⁻¹ Rⱼ
+  rw [forUpOpt_some _ _ _ _ (fun (i : Int) (c : G) =>
+      c + Loop.get xs i 0 • Loop.get proof.L i 0 + Loop.get xInvs i 0 • Loop.get proof.R i 0)
+    (by
+      intro i s
+      rw [commit_eq enc _ ms hms]
+      simp only [List.length_cons, List.length_nil, ↓reduceIte, msm_three])]
+  simp only [forUp_zero, Int.toNat_natCast]
+  have hacc : (List.range xs.length).foldl (fun (st : G) (k : Nat) =>
+        st + Loop.get xs (k : Int) 0 • Loop.get proof.L (k : Int) 0 + Loop.get xInvs (k : Int) 0 • Loop.get proof.R (k : Int) 0)
+        (C + y • w • cfg.Q)
+      = (List.zip xs (List.zip xInvs (List.zip proof.L proof.R))).foldl
+        (fun (c : G) (e : K × K × G × G) => c + e.1 • e.2.2.1 + e.2.1 • e.2.2.2) (C + y • w • cfg.Q) := by
+    rw [zip4_eq_range_map xs xInvs proof.L proof.R 0 0 0 0 xs.length rfl hxil (by omega) (by omega), List.foldl_map]
+    apply List.foldl_ext
+    intro acc k _
+    simp only [get_nat]
+  rw [hacc]
+  -- the folding scalars
+  rw [foldl_pointwise cfg.srs.length (0 : K) (fun i _ => foldingScalar cfg.rounds xInvs i) _ _ List.length_replicate
+    (by
+      intro l i hi hl
+      simp only [set_nat]
+      refine ⟨by simp [hl], ?_⟩
+      intro j _
+      rw [getD_set]
+      have hinner : (List.range xs.length).foldl (fun (st : K) (k : Nat) =>
+            if Loop.band (i : Int) (Loop.shl 1 (7 - (k : Int))) > 0 then st * Loop.get xInvs (k : Int) 0 else st) (1 : K)
+          = foldingScalar cfg.rounds xInvs i := by
+        unfold foldingScalar
+        rw [zipIdx_eq_range_map xInvs 0, List.foldl_map, hxil, hr]
+        apply List.foldl_ext
+        intro acc k hk
+        have hk8 : k < 8 := by rw [← h8]; exact List.mem_range.mp hk
+        simp only [get_nat]
+        by_cases hbit : i &&& (1 <<< (8 - 1 - k)) > 0
+        · rw [if_pos ((bit_test i k hk8).mpr hbit), if_pos hbit]
+        · rw [if_neg (fun hh => hbit ((bit_test i k hk8).mp hh)), if_neg hbit]
+      by_cases hji : j = i
+      · subst hji
+        rw [if_pos ⟨rfl, by omega⟩, if_pos rfl]
+        exact hinner
+      · have : ¬ (i = j ∧ i < l.length) := fun hh => hji hh.1.symm
+        rw [if_neg this, if_neg hji])]
+  set fs := (List.range cfg.srs.length).map fun i => foldingScalar cfg.rounds xInvs i with hfs
+  have hfl : fs.length = cfg.srs.length := by simp [hfs]
+  rw [hms, if_pos hfl.symm]
+  simp only
+  rw [innerProd_eq (bVector cfg z) fs (by rw [hb, hfl])]
+  simp only [Bool.decide_eq_true]
+
+/-! ### `CreateIPAProof` -/
+
+/-- the loop state of `CreateIPAProof`: `L`, `R`, transcript, `a`, `b`, current basis -/
+abbrev PState (K G : Type) := List G × List G × Tr × List K × List K × List G
+
+/-- the body of the round loop, as the translator emits it (checked against the generated
+function by `createIPAProof_unfold`) -/
+def goBody (bvec : K → List K) (ms : List G → List K → Option G) (q : G) (i : Int) (st : PState K G) : Option (PState K G) :=
+  let (L, R, transcript, a, b, current_basis) := st
+  match (Gen.Loops.splitScalars a) with
+  | none => none
+  | some (a_L, a_R) =>
+    match (Gen.Loops.splitScalars b) with
+    | none => none
+    | some (b_L, b_R) =>
+      match (Gen.Loops.splitPoints current_basis) with
+      | none => none
+      | some (G_L, G_R) =>
+        match (Gen.Loops.innerProd a_R b_L) with
+        | none => none
+        | some z_L =>
+          match (Gen.Loops.innerProd a_L b_R) with
+          | none => none
+          | some z_R =>
+            match (Gen.Loops.commit enc bvec ms G_L a_R) with
+            | none => none
+            | some C_L_1 =>
+              match (Gen.Loops.commit enc bvec ms ([C_L_1, q] : List G) ([(1 : K), z_L] : List K)) with
+              | none => none
+              | some C_L =>
+                match (Gen.Loops.commit enc bvec ms G_R a_L) with
+                | none => none
+                | some C_R_1 =>
+                  match (Gen.Loops.commit enc bvec ms ([C_R_1, q] : List G) ([(1 : K), z_R] : List K)) with
+                  | none => none
+                  | some C_R =>
+                    let L : List G := Loop.set L i (C_L)
+                    let R : List G := Loop.set R i (C_R)
+                    let transcript : Tr := Tr.appendPoint enc transcript C_L Gen.Loops.labelL
+                    let transcript : Tr := Tr.appendPoint enc transcript C_R Gen.Loops.labelR
+                    let (c_3, transcript) := Tr.challenge enc transcript Gen.Loops.labelX
+                    let x : K := c_3
+                    let xInv : K := 0
+                    let xInv : K := x⁻¹
+                    match (Gen.Loops.foldScalars a_L a_R x) with
+                    | none => none
+                    | some a =>
+                      match (Gen.Loops.foldScalars b_L b_R xInv) with
+                      | none => none
+                      | some b =>
+                        match (Gen.Loops.foldPoints G_L G_R xInv) with
+                        | none => none
+                        | some current_basis =>
+                          some (L, R, transcript, a, b, current_basis)
+
+theorem two_pow_succ_half (n : Nat) : 2 ^ (n + 1) / 2 = 2 ^ n := by
+  rw [pow_succ]; omega
+
+/-- one round of the Go loop is one unfolding of the model's `ipaRounds` -/
+theorem goBody_step (bvec : K → List K) (ms : List G → List K → Option G) (hms : MsOk ms) (q : G) (i : Nat) (n : Nat)
+    (L R : List G) (tr : Tr) (a b : List K) (g : List G)
+    (ha : a.length = 2 ^ (n + 1)) (hb : b.length = 2 ^ (n + 1)) (hg : g.length = 2 ^ (n + 1)) :
+    let m := a.length / 2
+    let cL := msm (g.take m) (a.drop m) + innerProd (a.drop m) (b.take m) • q
+    let cR := msm (g.drop m) (a.take m) + innerProd (a.take m) (b.drop m) • q
+    let xc := ((tr.appendPoint enc cL Label.L).appendPoint enc cR Label.R).challenge enc Label.x
+    goBody enc bvec ms q (i : Int) (L, R, tr, a, b, g)
+      = some (L.set i cL, R.set i cR, xc.2, GoIpa.foldScalars (a.take m) (a.drop m) xc.1,
+          GoIpa.foldScalars (b.take m) (b.drop m) xc.1⁻¹, GoIpa.foldPoints (g.take m) (g.drop m) xc.1⁻¹) := by
+  intro m cL cR xc
+  have hm : m = 2 ^ n := by show a.length / 2 = _; rw [ha, two_pow_succ_half]
+  have hbm : b.length / 2 = m := by rw [hb, two_pow_succ_half, hm]
+  have hgm : g.length / 2 = m := by rw [hg, two_pow_succ_half, hm]
+  have h2n : 2 ^ (n + 1) = 2 ^ n + 2 ^ n := by rw [pow_succ]; omega
+  have ev : ∀ k, k = 2 ^ (n + 1) → k % 2 = 0 := by intro k hk; rw [hk, pow_succ]; omega
+  unfold goBody
+  simp only
+  rw [splitScalars_eq a (ev _ ha), splitScalars_eq b (ev _ hb), splitPoints_eq g (ev _ hg)]
+  simp only [hbm, hgm]
+  have l1 : (a.drop m).length = (b.take m).length := by simp [List.length_take, List.length_drop, ha, hb, hm]; omega
+  have l2 : (a.take m).length = (b.drop m).length := by simp [List.length_take, List.length_drop, ha, hb, hm]; omega
+  have l3 : (g.take m).length = (a.drop m).length := by simp [List.length_take, List.length_drop, ha, hg, hm]; omega
+  have l4 : (g.drop m).length = (a.take m).length := by simp [List.length_take, List.length_drop, ha, hg, hm]; omega
+  have l5 : (a.take m).length = (a.drop m).length := by simp [List.length_take, List.length_drop, ha, hm]; omega
+  have l6 : (b.take m).length = (b.drop m).length := by simp [List.length_take, List.length_drop, hb, hm]; omega
+  have l7 : (g.take m).length = (g.drop m).length := by simp [List.length_take, List.length_drop, hg, hm]; omega
+  rw [innerProd_eq _ _ l1, innerProd_eq _ _ l2]
+  simp only
+  rw [commit_eq enc _ ms hms, if_pos l3]
+  simp only
+  rw [commit_eq enc _ ms hms]
+  simp only [List.length_cons, List.length_nil, ↓reduceIte, msm_two]
+  rw [commit_eq enc _ ms hms, if_pos l4]
+  simp only
+  rw [commit_eq enc _ ms hms]
+  simp only [List.length_cons, List.length_nil, ↓reduceIte, msm_two]
+  rw [foldScalars_eq _ _ _ l5, foldScalars_eq _ _ _ l6, foldPoints_eq _ _ _ l7]
+  simp only [set_nat]
+  rfl
+
+theorem foldl_none {σ : Type} (l : List Nat) (body : Int → σ → Option σ) :
+    l.foldl (fun (o : Option σ) (k : Nat) => match o with | none => none | some s => body (k : Int) s) none = none := by
+  induction l with
+  | nil => rfl
+  | cons k l ih => exact ih
+
+/-- **The remaining `n` iterations of the round loop, started at index `i0`, are `ipaRounds n`.** -/
+theorem run_eq (bvec : K → List K) (ms : List G → List K → Option G) (hms : MsOk ms) (q : G) (n : Nat) :
+    ∀ (i0 : Nat) (L R : List G) (tr : Tr) (a b : List K) (g : List G),
+      a.length = 2 ^ n → b.length = 2 ^ n → g.length = 2 ^ n → i0 + n ≤ L.length → i0 + n ≤ R.length →
+      ∃ (L' R' : List G) (b' : List K) (g' : List G),
+        (List.range' i0 n).foldl (fun (o : Option (PState K G)) (k : Nat) =>
+            match o with | none => none | some s => goBody enc bvec ms q (k : Int) s) (some (L, R, tr, a, b, g))
+          = some (L', R', (ipaRounds enc q n tr a b g).2.2.2, (ipaRounds enc q n tr a b g).2.2.1, b', g') ∧
+        (ipaRounds enc q n tr a b g).2.2.1.length = 1 ∧
+        (ipaRounds enc q n tr a b g).1.length = n ∧ (ipaRounds enc q n tr a b g).2.1.length = n ∧
+        L'.length = L.length ∧ R'.length = R.length ∧
+        (∀ j, L'.getD j 0 = if i0 ≤ j ∧ j < i0 + n then (ipaRounds enc q n tr a b g).1.getD (j - i0) 0 else L.getD j 0) ∧
+        (∀ j, R'.getD j 0 = if i0 ≤ j ∧ j < i0 + n then (ipaRounds enc q n tr a b g).2.1.getD (j - i0) 0 else R.getD j 0) := by
+  induction n with
+  | zero =>
+    intro i0 L R tr a b g ha _ _ _ _
+    refine ⟨L, R, b, g, rfl, by simpa [ipaRounds] using ha, rfl, rfl, rfl, rfl, ?_, ?_⟩ <;>
+    · intro j
+      have : ¬ (i0 ≤ j ∧ j < i0 + 0) := by omega
+      rw [if_neg this]
+  | succ n ih =>
+    intro i0 L R tr a b g ha hb hg hL hR
+    rw [List.range'_succ, List.foldl_cons]
+    simp only
+    have hstep := goBody_step enc bvec ms hms q i0 n L R tr a b g ha hb hg
+    simp only at hstep
+    rw [hstep]
+    set m := a.length / 2 with hm
+    have hm' : m = 2 ^ n := by rw [hm, ha, two_pow_succ_half]
+    set cL := msm (g.take m) (a.drop m) + innerProd (a.drop m) (b.take m) • q with hcL
+    set cR := msm (g.drop m) (a.take m) + innerProd (a.take m) (b.drop m) • q with hcR
+    set xc := ((tr.appendPoint enc cL Label.L).appendPoint enc cR Label.R).challenge enc Label.x with hxc
+    have hlen : ∀ (u v : List K), u.length = 2 ^ (n + 1) → ((u.take m).length = 2 ^ n ∧ (u.drop m).length = 2 ^ n) := by
+      intro u v hu
+      have : 2 ^ (n + 1) = 2 ^ n + 2 ^ n := by rw [pow_succ]; omega
+      simp [List.length_take, List.length_drop, hu, hm']; omega
+    have hlenG : (g.take m).length = 2 ^ n ∧ (g.drop m).length = 2 ^ n := by
+      have : 2 ^ (n + 1) = 2 ^ n + 2 ^ n := by rw [pow_succ]; omega
+      simp [List.length_take, List.length_drop, hg, hm']; omega
+    have la : (GoIpa.foldScalars (a.take m) (a.drop m) xc.1).length = 2 ^ n := by
+      unfold GoIpa.foldScalars; rw [List.length_zipWith, (hlen a a ha).1, (hlen a a ha).2]; simp
+    have lb : (GoIpa.foldScalars (b.take m) (b.drop m) xc.1⁻¹).length = 2 ^ n := by
+      unfold GoIpa.foldScalars; rw [List.length_zipWith, (hlen b b hb).1, (hlen b b hb).2]; simp
+    have lg : (GoIpa.foldPoints (g.take m) (g.drop m) xc.1⁻¹).length = 2 ^ n := by
+      unfold GoIpa.foldPoints; rw [List.length_zipWith, hlenG.1, hlenG.2]; simp
+    obtain ⟨L', R', b', g', e1, e2, e3, e4, e5, e6, e7, e8⟩ := ih (i0 + 1) (L.set i0 cL) (R.set i0 cR) xc.2 _ _ _ la lb lg
+      (by simp; omega) (by simp; omega)
+    -- the model's unfolding
+    have hmodel : ipaRounds enc q (n + 1) tr a b g =
+        (cL :: (ipaRounds enc q n xc.2 (GoIpa.foldScalars (a.take m) (a.drop m) xc.1)
+            (GoIpa.foldScalars (b.take m) (b.drop m) xc.1⁻¹) (GoIpa.foldPoints (g.take m) (g.drop m) xc.1⁻¹)).1,
+         cR :: (ipaRounds enc q n xc.2 (GoIpa.foldScalars (a.take m) (a.drop m) xc.1)
+            (GoIpa.foldScalars (b.take m) (b.drop m) xc.1⁻¹) (GoIpa.foldPoints (g.take m) (g.drop m) xc.1⁻¹)).2.1,
+         (ipaRounds enc q n xc.2 (GoIpa.foldScalars (a.take m) (a.drop m) xc.1)
+            (GoIpa.foldScalars (b.take m) (b.drop m) xc.1⁻¹) (GoIpa.foldPoints (g.take m) (g.drop m) xc.1⁻¹)).2.2.1,
+         (ipaRounds enc q n xc.2 (GoIpa.foldScalars (a.take m) (a.drop m) xc.1)
+            (GoIpa.foldScalars (b.take m) (b.drop m) xc.1⁻¹) (GoIpa.foldPoints (g.take m) (g.drop m) xc.1⁻¹)).2.2.2) := by
+      rfl
+    rw [hmodel]
+    simp only
+    refine ⟨L', R', b', g', e1, e2, by simp [e3], by simp [e4], by simpa using e5, by simpa using e6, ?_, ?_⟩
+    · intro j
+      rw [e7 j]
+      by_cases hj0 : j = i0
+      · subst hj0
+        have a1 : ¬ (j + 1 ≤ j ∧ j < j + 1 + n) := by omega
+        have a2 : (j ≤ j ∧ j < j + (n + 1)) := by omega
+        rw [if_neg a1, if_pos a2, getD_set_self _ _ _ _ (by omega)]
+        simp
+      · by_cases hin : i0 + 1 ≤ j ∧ j < i0 + 1 + n
+        · have a2 : (i0 ≤ j ∧ j < i0 + (n + 1)) := by omega
+          rw [if_pos hin, if_pos a2]
+          have : j - i0 = (j - (i0 + 1)) + 1 := by omega
+          rw [this, List.getD_cons_succ]
+        · have a2 : ¬ (i0 ≤ j ∧ j < i0 + (n + 1)) := by omega
+          rw [if_neg hin, if_neg a2, getD_set_ne _ _ _ _ _ (Ne.symm hj0)]
+    · intro j
+      rw [e8 j]
+      by_cases hj0 : j = i0
+      · subst hj0
+        have a1 : ¬ (j + 1 ≤ j ∧ j < j + 1 + n) := by omega
+        have a2 : (j ≤ j ∧ j < j + (n + 1)) := by omega
+        rw [if_neg a1, if_pos a2, getD_set_self _ _ _ _ (by omega)]
+        simp
+      · by_cases hin : i0 + 1 ≤ j ∧ j < i0 + 1 + n
+        · have a2 : (i0 ≤ j ∧ j < i0 + (n + 1)) := by omega
+          rw [if_pos hin, if_pos a2]
+          have : j - i0 = (j - (i0 + 1)) + 1 := by omega
+          rw [this, List.getD_cons_succ]
+        · have a2 : ¬ (i0 ≤ j ∧ j < i0 + (n + 1)) := by omega
+          rw [if_neg hin, if_neg a2, getD_set_ne _ _ _ _ _ (Ne.symm hj0)]
+
+/-- the translated prover is its prologue, the round loop with body `goBody`, and its epilogue -/
+theorem createIPAProof_unfold (bvec : K → List K) (ms : List G → List K → Option G) (tr : Tr) (Q : G) (srs : List G)
+    (rounds : Int) (C : G) (a : List K) (z : K) :
+    Gen.Loops.createIPAProof enc bvec ms tr Q srs rounds C a z =
+      (match Gen.Loops.innerProd a (bvec z) with
+       | none => none
+       | some ip =>
+         let tr1 := (((tr.domainSep Gen.Loops.labelDomainSep).appendPoint enc C Gen.Loops.labelC).appendScalar enc z
+            Gen.Loops.labelInputPoint).appendScalar enc ip Gen.Loops.labelOutputPoint
+         let wc := Tr.challenge enc tr1 Gen.Loops.labelW
+         match Loop.forUpOpt 0 rounds
+            ((List.replicate rounds.toNat (0 : G), List.replicate rounds.toNat (0 : G), wc.2, a, bvec z, srs) : PState K G)
+            (goBody enc bvec ms (wc.1 • Q)) with
+         | none => none
+         | some (L, R, transcript, a, _, _) =>
+           if (((a.length : Nat) : Int) ≠ 1) then none else some ((L, R, Loop.get a 0 0), transcript)) := by
+  rfl
+
+/-- the result of the translated prover that corresponds to a result of the model -/
+def ofModelP (r : Option (IpaProof K G) × Tr) : Option ((List G × List G × K) × Tr) :=
+  match r.1 with
+  | some p => some ((p.L, p.R, p.a), r.2)
+  | none => none
+
+/-- **`CreateIPAProof`, translated from the source, is the model's `ipaProve`** for every
+configuration with `2^rounds` basis points and every vector of that length. -/
+theorem createIPAProof_eq (cfg : IpaCfg K G) (ms : List G → List K → Option G) (hms : MsOk ms)
+    (tr : Tr) (C : G) (a : List K) (z : K)
+    (hsrs : cfg.srs.length = 2 ^ cfg.rounds) (ha : a.length = 2 ^ cfg.rounds)
+    (hb : (bVector cfg z).length = 2 ^ cfg.rounds) :
+    Gen.Loops.createIPAProof enc (bVector cfg) ms tr cfg.Q cfg.srs (cfg.rounds : Int) C a z
+      = ofModelP (ipaProve enc cfg tr C a z) := by
+  rw [createIPAProof_unfold, innerProd_eq a _ (by rw [ha, hb])]
+  simp only
+  unfold ipaProve ofModelP
+  simp only
+  rw [show Gen.Loops.labelDomainSep = Label.ipa from rfl, show Gen.Loops.labelC = Label.C from rfl,
+    show Gen.Loops.labelInputPoint = Label.inputPoint from rfl, show Gen.Loops.labelOutputPoint = Label.outputPoint from rfl,
+    show Gen.Loops.labelW = Label.w from rfl]
+  generalize Tr.challenge enc ((((tr.domainSep Label.ipa).appendPoint enc C Label.C).appendScalar enc z
+    Label.inputPoint).appendScalar enc (GoIpa.innerProd a (bVector cfg z)) Label.outputPoint) Label.w = wc
+  obtain ⟨w, tr1⟩ := wc
+  simp only [Int.toNat_natCast]
+  obtain ⟨L', R', b', g', e1, e2, e3, e4, e5, e6, e7, e8⟩ := run_eq enc (bVector cfg) ms hms (w • cfg.Q) cfg.rounds 0
+    (List.replicate cfg.rounds (0 : G)) (List.replicate cfg.rounds (0 : G)) tr1 a (bVector cfg z) cfg.srs ha hb hsrs
+    (by simp) (by simp)
+  have hloop : Loop.forUpOpt 0 (cfg.rounds : Int)
+      ((List.replicate cfg.rounds (0 : G), List.replicate cfg.rounds (0 : G), tr1, a, bVector cfg z, cfg.srs) : PState K G)
+      (goBody enc (bVector cfg) ms (w • cfg.Q))
+      = (List.range' 0 cfg.rounds).foldl (fun (o : Option (PState K G)) (k : Nat) =>
+          match o with | none => none | some s => goBody enc (bVector cfg) ms (w • cfg.Q) (k : Int) s)
+          (some (List.replicate cfg.rounds (0 : G), List.replicate cfg.rounds (0 : G), tr1, a, bVector cfg z, cfg.srs)) := by
+    unfold Loop.forUpOpt Loop.forUp
+    rw [List.range_eq_range']
+    simp only [Int.sub_zero, Int.toNat_natCast, Int.zero_add]
+    congr 1
+    funext o k
+    cases o <;> rfl
+  rw [hloop, e1]
+  generalize hR : ipaRounds enc (w • cfg.Q) cfg.rounds tr1 a (bVector cfg z) cfg.srs = Rm at e1 e2 e3 e4 e7 e8 ⊢
+  obtain ⟨Ls, Rs, af, trf⟩ := Rm
+  simp only at e2 e3 e4 e7 e8 ⊢
+  have hne : ¬ (((af.length : Nat) : Int) ≠ 1) := by omega
+  rw [if_neg hne]
+  match af, e2 with
+  | [a0], _ =>
+    simp only
+    have hL : L' = Ls := by
+      apply ext_getD _ _ (0 : G) (by rw [e5, e3]; simp)
+      intro j hj
+      rw [e5, List.length_replicate] at hj
+      rw [e7 j, if_pos (by omega)]; simp
+    have hRr : R' = Rs := by
+      apply ext_getD _ _ (0 : G) (by rw [e6, e4]; simp)
+      intro j hj
+      rw [e6, List.length_replicate] at hj
+      rw [e8 j, if_pos (by omega)]; simp
+    rw [hL, hRr]
+    rfl
+
 end GoIpa.Tie.Protocol
